@@ -133,7 +133,8 @@ func unpackTransportUnit(data []byte, unit *TransportUnit) (uint, error) {
 
 	dataLength := int(data[0])
 
-	if len(data) < 3 || dataLength+2 < len(data) {
+	// The length octet counts the bytes after the TPCI octet; they must all be present.
+	if dataLength < 1 || len(data) < dataLength+2 {
 		return 0, io.ErrUnexpectedEOF
 	}
 
@@ -144,7 +145,7 @@ func unpackTransportUnit(data []byte, unit *TransportUnit) (uint, error) {
 		Data:      make([]byte, dataLength),
 	}
 
-	copy(app.Data, data[2:])
+	copy(app.Data, data[2:2+dataLength])
 	app.Data[0] &= 63
 
 	*unit = app
